@@ -1,4 +1,5 @@
 //! Native confirmation driver for the Tantivy token stream (C16): JSON {"model":[u8..],"wsconst":"..","text":".."} on stdin,
+//! optional "prior": a text streamed to its end through the same tokenizer first.
 //! JSON {"tokens":[{"from":..,"to":..,"position":..,"text":..}]} | {"panic":..} | {"err":..} on stdout.
 use std::io::Read;
 use std::panic::{catch_unwind, AssertUnwindSafe};
@@ -25,6 +26,17 @@ fn main() {
             Ok(t) => t,
             Err(e) => return json!({"err": format!("new: {e}")}),
         };
+        if let Some(prior) = v["prior"].as_str() {
+            // the same tokenizer object first streams another document to its end
+            let mut ps = tok.token_stream(prior);
+            let mut n = 0;
+            while ps.advance() {
+                n += 1;
+                if n > 100000 {
+                    break;
+                }
+            }
+        }
         let mut stream = tok.token_stream(&text);
         let mut out = vec![];
         while stream.advance() {
